@@ -244,6 +244,16 @@ def eval_program(arg) -> dict:
         clients = scripts.client_ids(rng, rng.randint(1, 5))
         histories.append((clients, rand_history(rng, mci, clients, others, cx_outs,
                                                 rng.randint(1, 30)), False))
+    deny = next((i for i in range(mci['n_fields']) if i != mci['grant']), None)
+    if deny is not None:
+        # long use of one shell: a hundred and thirty rounds in which a client whose claim was
+        # denied lets go of what it never held, while the holder keeps receiving
+        long_history = [('claim', 'A', mci['grant'])]
+        for k in range(130):
+            long_history += [('claim', 'B', deny), ('release', 'B'), ('out', cx_outs[k % len(cx_outs)])]
+        long_history += [('release', 'A'), ('out', cx_outs[0])]
+        histories.append((['A', 'B'], long_history, True))
+        cnt['histories_of_hundreds_of_operations'] = 1
     for idx, (clients, history, exhaustive) in enumerate(histories):
         # every third random history starts before the shell is finally constructed
         final_at = 0 if (exhaustive or idx % 3) else rng.randint(0, len(history))
@@ -293,7 +303,7 @@ def main(tier: str) -> int:
         raise common.Inconclusive('g++ / clang++-14 not available')
     run = common.Run(PROP, tier)
     n = 6 if tier == 'quick' else 40
-    run.require('histories', 'out_events_judged', 'in_events_judged', 'deliveries_to_holder',
+    run.require('histories', 'histories_of_hundreds_of_operations', 'out_events_judged', 'in_events_judged', 'deliveries_to_holder',
                 'handlers_reconnected', 'histories_with_handlers_connected_late',
                 'granting_value_is_suffix_of_an_earlier_enumerator',
                 'deliveries_to_nobody', 'decoy_events_present', 'histories_exhaustive_part')
